@@ -79,16 +79,23 @@ func (self *Compiler) mangleLabel(input string) string {
 }
 
 func (self Compiler) getMangledFn(input string) (string, bool) {
-	for key, fn := range self.modules[self.currModule] {
-		if key == input {
-			return fn.MangledName, true
-		}
+	if fn, found := self.modules[self.currModule][input]; found {
+		return fn.MangledName, true
 	}
 
-	// TODO: i don't think that this is really reliable
-	for _, module := range self.modules {
-		for key, fn := range module {
-			if key == input {
+	// A function of another module is only visible through an import of the current module:
+	// resolve it in the module it was imported from (never by name across all modules).
+	for _, item := range self.analyzedSource[self.currModule].Imports {
+		if !item.TargetIsHMS {
+			continue
+		}
+
+		for _, imported := range item.ToImport {
+			if imported.Ident.Ident() != input {
+				continue
+			}
+
+			if fn, found := self.modules[item.FromModule.Ident()][input]; found {
 				return fn.MangledName, true
 			}
 		}
